@@ -33,7 +33,7 @@ def _clauses(xs, default_props):
 
 
 class Loop:
-    def __init__(self, inv=(), variant=None, props=(), havoc=(), keep=(), frame=None, ghost_set=None):
+    def __init__(self, inv=(), variant=None, props=(), havoc=(), keep=(), frame=None, ghost_set=None, lemmas=()):
         self.inv = inv
         self.variant = variant
         self.props = props
@@ -41,6 +41,7 @@ class Loop:
         self.keep = list(keep)
         self.frame = dict(frame or {})
         self.ghost_set = dict(ghost_set or {})
+        self.lemmas = list(lemmas)
 
 
 class FuncContract:
@@ -49,7 +50,7 @@ class FuncContract:
                  loops=None, at_yield=(), modifies=(), generator=False,
                  ghosts=None, cls=None, assumed=False, note="",
                  on_abandon=(), locals_=None, reads_async=False,
-                 verify=True, pure=False, at_call=None, sig=None):
+                 verify=True, pure=False, at_call=None, sig=None, stream_out=False, yields=None, summary=None, defs=(), decreases=None, property=False):
         self.module = module
         self.qualname = qualname
         self.props = list(props)
@@ -83,6 +84,12 @@ class FuncContract:
         self.verify = verify
         self.pure = pure
         self.sig_names = sig
+        self.stream_out = stream_out
+        self.yields = yields
+        self.summary = summary
+        self.defs = _clauses(defs, props)
+        self.decreases = decreases
+        self.is_property = property
         self.at_call = {k: _clauses(v, props) for k, v in (at_call or {}).items()}
 
     @property
